@@ -24,6 +24,7 @@ import (
 	"encoding/json"
 	"fmt"
 	"os"
+	"strings"
 	"time"
 
 	"verif/vkit"
@@ -91,7 +92,7 @@ func depthFor(c *acfg, tier string) (depth, split int) {
 
 // extDepthFor: bounds of the extended-alphabet search (rel.go).
 func extDepthFor(c *acfg, tier string) (depth, split int) {
-	big := c.Name == "aligned@32K+rel"
+	big := strings.HasPrefix(c.Name, "aligned@32K+rel")
 	if tier == "thorough" {
 		if big {
 			return 4, 2
